@@ -1,5 +1,5 @@
 import I2N.Lemmas.PolicyFrame
-import I2N.Lemmas.PolicyGenPush
+import I2N.Lemmas.PolicyGenChain
 /-!
 # C12 — State operations follow the documented policy table and a store model
 
@@ -490,6 +490,48 @@ theorem getOne_clash_witness :
   have h2 := congrArg (fun r => r.2.calls.map (fun c => (c.kind, c.arg))) h
   revert h2
   decide +kernel
+
+/-! ### `_state_check_chain` itself (the atom `chainM` of the generated get/set/unset iterations) -/
+
+/-- the definition regenerated from `_state_check_chain` for one value of its parameter `do` (the front end substitutes
+the constant for `do` and folds the f-strings `f"{do}_state"`, `f"{do}_location"`; the test `do == "set"` is translated) -/
+def genChain (d : Do) (B : Backends) (ty name : String) : M Bool :=
+  match d with
+  | .get => genChainGet B ty name
+  | .set => genChainSet B ty name
+  | .unset => genChainUnset B ty name
+
+/-- **`_state_check_chain(do, env, type, name, state_params)` is the atom `chainM`** the generated iterations of
+`get_states` / `set_states` / `unset_states` call, for every `do`, type, name, dictionary, store and backends table: same
+answer, same dictionary afterwards (`check_state`, `show_location` only for a non-empty `<do>_location`, `check_opts` /
+`soft_boot` = yes exactly for `set`, every component `type = name`, `states_chain` = the last type, in this order), same
+store and backend calls of the nested `check_states`.  Equality of the whole state (no `outOf`): the callers go on
+reading the rewritten dictionary. -/
+theorem stateCheckChain_matches_source (B : Backends) (d : Do) (ty name : String) (s : PS) :
+    (genChain d B ty name).run s = chainM B d ty name s := by
+  cases d
+  · exact I2N.PolicyGen.chainGet_eq B ty name s
+  · exact I2N.PolicyGen.chainSet_eq B ty name s
+  · exact I2N.PolicyGen.chainUnset_eq B ty name s
+
+/-- … and, called with the type and name of the dictionary itself (what `get_states`, `set_states`, `unset_states` pass),
+it is the hand model's `chainParams` followed by the hand model's `checkStates` -/
+theorem stateCheckChain_is_chainParams (B : Backends) (d : Do) (sp rp : Params) (st : St) :
+    (genChain d B (sp.getD "object_type" "") (sp.getD "object_name" "")).run ⟨sp, rp, st⟩ =
+      ((checkStates B (chainParams d sp) st).1,
+        ⟨chainParams d sp, rp, (checkStates B (chainParams d sp) st).2⟩) := by
+  rw [stateCheckChain_matches_source]
+  simp only [chainM, I2N.PolicyGen.chainParamsWith_self]
+
+/-- NV: on the image of the standard example the regenerated chain answers "state missing" after creating the root
+(default `check_mode=rf`) and leaves `check_state=launch`, `states_chain=images`, `soft_boot=no` in the dictionary -/
+example : ((genChain .get B0 "nets/vms/images" "net1/vm1/image1").run ⟨spImg, [], {}⟩).1.toOption = some false ∧
+    ((genChain .get B0 "nets/vms/images" "net1/vm1/image1").run ⟨spImg, [], {}⟩).2.st.calls.map (·.kind) =
+      [.checkRoot, .setRoot, .show] ∧
+    (((genChain .get B0 "nets/vms/images" "net1/vm1/image1").run ⟨spImg, [], {}⟩).2.sp.get? "check_state",
+     ((genChain .get B0 "nets/vms/images" "net1/vm1/image1").run ⟨spImg, [], {}⟩).2.sp.get? "states_chain",
+     ((genChain .get B0 "nets/vms/images" "net1/vm1/image1").run ⟨spImg, [], {}⟩).2.sp.get? "soft_boot") =
+      (some "launch", some "images", some "no") := by decide +kernel
 
 end Regenerated
 
